@@ -6,7 +6,12 @@ Require Export Verif.Model.C03 Verif.Spec.C03.
    detector reported lura frames, and the client's own maps after the request *)
 Inductive case :=
 | Case (cfg : config) (q : request) (obs : list bobs) (race : bool)
-       (after_hdr after_qry : mmap) (after_par : list (string * string)).
+       (after_hdr after_qry : mmap) (after_par : list (string * string))
+(* unit level: one function / middleware applied to a request; by pointer identity, per field
+   of all_fields, whether the request handed on holds the SAME object as the one received
+   (None: not observable - nil body, no comparable header entry), whether next was reached,
+   and whether the Body of the SOURCE request is still the reader it was *)
+| CAlias (kd : akind) (b : backend) (q : request) (reached : bool) (same : list (option bool)) (src_body_same : option bool).
 
 Definition somes {A} (l : list (option A)) : list A :=
   flat_map (fun o => match o with Some x => [x] | None => [] end) l.
@@ -31,6 +36,16 @@ Definition par_eqb (a b : list (string * string)) : bool :=
 Fixpoint zip_idx {A} (i : nat) (l : list A) : list (nat * A) :=
   match l with [] => [] | x :: r => (i, x) :: zip_idx (S i) r end.
 
+(* the tie is one-directional: wherever the code hands on the SAME object the model must say
+   so (sharing the model does not know about would void the race-freedom theorem); a rewrite
+   that copies more than the model says shares less and stays inside the theorem *)
+Fixpoint match_same (o : list (option bool)) (m : list bool) : bool :=
+  match o, m with
+  | [], [] => true
+  | x :: r, y :: t => match x with Some v => implb v y | None => true end && match_same r t
+  | _, _ => false
+  end.
+
 Definition check_case (c : case) : bool * bool :=
   match c with
   | Case cfg q obs race ah aq ap =>
@@ -45,6 +60,16 @@ Definition check_case (c : case) : bool * bool :=
         match final_orig cfg q FQry with VMap m => mmap_eqb m aq | _ => false end &&
         match final_orig cfg q FPar with VPar m => par_eqb m ap | _ => false end in
       (corr, spec_b obs race)
+  | CAlias kd b q reached same src =>
+      let ok :=
+        match stage_effect kd b q with
+        | None => negb reached
+        | Some (s', c) =>
+            reached &&
+            match_same same (same_objects (init_pst q) c) &&
+            match src with Some x => implb x (obj_eqb (pv s' FBody) (pv (init_pst q) FBody)) | None => true end
+        end in
+      (ok, true)
   end.
 
 Fixpoint failing (i : nat) (cs : list case) : list verdict :=
